@@ -2,19 +2,21 @@
 """Copies the deliverables of a seeding sub-agent (/tmp/mut/Cxx/seeded) to /verif/seeded/Cxx-k/ (one dir per patch)."""
 import glob, json, os, shutil, sys
 pid = sys.argv[1]
-src = "/tmp/mut/%s/seeded" % pid
+root = sys.argv[2] if len(sys.argv) > 2 else "/tmp/mut"
+tag = sys.argv[3] if len(sys.argv) > 3 else ""
+src = "%s/%s/seeded" % (root, pid)
 patches = sorted(glob.glob(src + "/patch*.diff"), key=lambda p: (len(p), p))
 for k, p in enumerate(patches, 1):
-    dst = "/verif/seeded/%s-%d" % (pid, k)
+    dst = "/verif/seeded/%s-%s%d" % (pid, tag, k)
     os.makedirs(dst, exist_ok=True)
     shutil.copy(p, dst + "/patch.diff")
     for f in os.listdir(src):
         fp = os.path.join(src, f)
-        if os.path.isfile(fp) and not f.startswith("patch") and os.path.getsize(fp) < 200000 and not f.endswith(".log"):
+        if os.path.isfile(fp) and not (f.startswith("patch") and f.endswith(".diff")) and os.path.getsize(fp) < 200000 and not f.endswith(".log"):
             shutil.copy(fp, dst + "/" + f)
     meta_path = dst + "/meta.json"
     meta = json.load(open(meta_path)) if os.path.exists(meta_path) else {}
-    meta.setdefault("id", "%s-%d" % (pid, k))
+    meta.setdefault("id", "%s-%s%d" % (pid, tag, k))
     meta.setdefault("target_property", pid)
     meta.setdefault("source_patch", os.path.basename(p))
     meta.setdefault("origin", "independent sub-agent given only the property text and a scratch worktree")
